@@ -21,7 +21,7 @@ def sh(cmd, cwd=None, timeout=1800, env=None):
 def main():
     pid, var = sys.argv[1], sys.argv[2]
     checks = sys.argv[3].split(",") if len(sys.argv) > 3 and not sys.argv[3].startswith("--") else [pid]
-    src = "/tmp/mut/out%s-%s" % ({"C": "2", "D": "2", "E": "3", "F": "3", "G": "4", "H": "4", "I": "5", "J": "5", "K": "6", "L": "6", "M": "7", "N": "7", "O": "8", "P": "8"}.get(var, ""), pid)
+    src = "/tmp/mut/out%s-%s" % ({"C": "2", "D": "2", "E": "3", "F": "3", "G": "4", "H": "4", "I": "5", "J": "5", "K": "6", "L": "6", "M": "7", "N": "7", "O": "8", "P": "8", "Q": "9", "R": "9"}.get(var, ""), pid)
     diff = os.path.join(src, var + ".diff")
     demo = os.path.join(src, var + "_demo_test.go")
     wt = "/tmp/mt-%s-%s" % (pid, var)
